@@ -35,21 +35,21 @@ def ops_for(rng, p, st, tier):
         if type_level:
             tnames = ["unit", "idx", "u8", "path", "json", "packed"]
             for w in (rng.sample(tnames, 3) if quick else tnames):
-                ops.append(dict(op="transcode", keys=P.key_repr(rng, steps), tg=targets_for(rng, steps, [w])[0]))
-            ops.append(dict(op="rawtrav", keys=P.key_repr(rng, steps)))
+                ops.append(dict(op="transcode", keys=P.key_repr(rng, steps), tg=targets_for(rng, steps, [w])[0], _steps=steps, _leaf=leaf))
+            ops.append(dict(op="rawtrav", keys=P.key_repr(rng, steps), _steps=steps, _leaf=leaf))
             if steps and rng.random() < 0.3:
-                ops.append(dict(op="rawtrav", keys=P.key_repr(rng, steps), fail_at=rng.randrange(len(steps))))
+                ops.append(dict(op="rawtrav", keys=P.key_repr(rng, steps), fail_at=rng.randrange(len(steps)), _steps=steps, _leaf=leaf))
             for j in range(len(steps) + 1):
                 if quick and rng.random() < 0.5:
                     continue
-                ops.append(dict(op="transcode", keys=P.key_chain(rng, steps, j), tg=targets_for(rng, steps, [rng.choice(["idx", "path", "unit"])])[0]))
+                ops.append(dict(op="transcode", keys=P.key_chain(rng, steps, j), tg=targets_for(rng, steps, [rng.choice(["idx", "path", "unit"])])[0], _steps=steps, _leaf=leaf))
         # reads through a random representation, with scripted callbacks
         if not quick or rng.random() < 0.7:
-            ops.append(dict(op="ser", keys=P.key_repr(rng, steps), oracle=P.oracle_for(rng, p.t)))
+            ops.append(dict(op="ser", keys=P.key_repr(rng, steps), oracle=P.oracle_for(rng, p.t), _steps=steps, _leaf=leaf))
         if not quick or rng.random() < 0.5:
-            ops.append(dict(op="ref", keys=P.key_repr(rng, steps), oracle=P.oracle_for(rng, p.t)))
+            ops.append(dict(op="ref", keys=P.key_repr(rng, steps), oracle=P.oracle_for(rng, p.t), _steps=steps, _leaf=leaf))
         if not leaf and rng.random() < 0.3:
-            ops.append(dict(op="de", keys=P.key_repr(rng, steps), payload=list(b"1"), oracle=P.oracle_for(rng, p.t)))
+            ops.append(dict(op="de", keys=P.key_repr(rng, steps), payload=list(b"1"), oracle=P.oracle_for(rng, p.t), _steps=steps, _leaf=leaf))
     # ---- write / read-back histories on the leaves
     nhist = (12 if quick else 40) + len(leaves)
     for i in range(nhist):
@@ -64,9 +64,9 @@ def ops_for(rng, p, st, tier):
             txt = P.payload_for(rng, tid, mode)
         orc = P.oracle_for(rng, p.t) if rng.random() < 0.6 else {}
         kind = "de" if rng.random() < 0.75 else "mut"
-        ops.append(dict(op=kind, keys=P.key_repr(rng, steps), payload=list(txt.encode()), oracle=orc))
+        ops.append(dict(op=kind, keys=P.key_repr(rng, steps), payload=list(txt.encode()), oracle=orc, _steps=steps, _leaf=True, _tid=tid))
         # read back through an equivalent key in another representation
-        ops.append(dict(op=rng.choice(["ser", "ser", "ref"]), keys=P.key_repr(rng, steps), oracle={}))
+        ops.append(dict(op=rng.choice(["ser", "ser", "ref"]), keys=P.key_repr(rng, steps), oracle={}, _steps=steps, _leaf=True, _readback=True))
     # ---- malformed / surplus / truncated keys on every operation
     nbad = 25 if quick else 120
     for _ in range(nbad):
@@ -81,6 +81,17 @@ def ops_for(rng, p, st, tier):
             ops.append(dict(op=o, keys=k, payload=list(P.payload_for(rng, rng.choice([1, 6, 9]), "valid").encode()), oracle=P.oracle_for(rng, p.t)))
         else:
             ops.append(dict(op=o, keys=k, oracle=P.oracle_for(rng, p.t)))
+    # ---- the five operations on one and the same key (C02)
+    for g in range(10 if quick else 40):
+        steps, leaf = rng.choice(nodes)
+        k = P.key_repr(rng, steps) if rng.random() < 0.5 else P.mutate_key(rng, steps)
+        orc = P.oracle_for(rng, p.t) if rng.random() < 0.5 else {}
+        pay = list(P.payload_for(rng, P.leaf_tid(p.t, steps) or 1, "valid").encode())
+        ops.append(dict(op="transcode", keys=k, tg=dict(t="unit"), _grp=g))
+        ops.append(dict(op="ser", keys=k, oracle=orc, _grp=g))
+        ops.append(dict(op="ref", keys=k, oracle=orc, _grp=g))
+        ops.append(dict(op="de", keys=k, payload=pay, oracle=orc, _grp=g))
+        ops.append(dict(op="mut", keys=k, payload=pay, oracle=orc, _grp=g))
     # ---- iteration (type level)
     if type_level:
         maxd = p.maxd
@@ -96,12 +107,12 @@ def ops_for(rng, p, st, tier):
         for steps, leaf in rng.sample(nodes, min(len(nodes), 6 if quick else 20)):
             d = rng.randint(len(steps), maxd + 1)
             ops.append(dict(op="iter", d=d, tg=rng.choice([dict(t="path", sep=47), dict(t="idxd"), dict(t="packed")]),
-                            root=P.key_repr(rng, steps), max=600))
+                            root=P.key_repr(rng, steps), _root=steps, max=600))
         # re-rooting a used iterator
         for _ in range(2 if quick else 8):
             a, b = rng.choice(nodes), rng.choice(nodes)
             d = maxd + rng.randint(0, 1)
-            ops.append(dict(op="iter", d=d, tg=dict(t="path", sep=47), root0=P.key_repr(rng, a[0]), root=P.key_repr(rng, b[0]),
+            ops.append(dict(op="iter", d=d, tg=dict(t="path", sep=47), root0=P.key_repr(rng, a[0]), root=P.key_repr(rng, b[0]), _root=b[0], _root0=a[0],
                             pre_steps=rng.randint(0, 3), max=600))
         # capacity-limited targets
         for _ in range(4 if quick else 16):
@@ -110,6 +121,7 @@ def ops_for(rng, p, st, tier):
                              dict(t="json", cap=rng.randint(0, 12))])
             op = dict(op="iter", d=d, tg=tg, max=600)
             if rng.random() < 0.4 and internal:
-                op["root"] = P.key_repr(rng, rng.choice(internal)[0])
+                rs = rng.choice(internal)[0]
+                op["root"] = P.key_repr(rng, rs); op["_root"] = rs
             ops.append(op)
     return ops
